@@ -489,6 +489,8 @@ func (self *Analyzer) continueStatement(node pAst.ContinueStatement) ast.Analyze
 func (self *Analyzer) loopStatement(node pAst.LoopStatement) ast.AnalyzedLoopStatement {
 	// validate that the block returns `null`
 	oldLoopIsTerminated := self.currentModule.CurrentLoopIsTerminated
+	// Only exits inside of this loop count (a `never` expression before the loop must not mark it as terminated).
+	self.currentModule.CurrentLoopIsTerminated = false
 	self.currentModule.LoopDepth++
 
 	body := self.block(node.Body, true)
@@ -526,6 +528,8 @@ func (self *Analyzer) whileStatement(node pAst.WhileStatement) ast.AnalyzedWhile
 
 	// validate that the block returns `null`
 	oldLoopIsTerminated := self.currentModule.CurrentLoopIsTerminated
+	// Only exits inside of this loop count (a `never` expression before the loop must not mark it as terminated).
+	self.currentModule.CurrentLoopIsTerminated = false
 	self.currentModule.LoopDepth++
 
 	body := self.block(node.Body, true)
@@ -580,6 +584,8 @@ func (self *Analyzer) forStatement(node pAst.ForStatement) ast.AnalyzedForStatem
 	}
 
 	oldLoopIsTerminated := self.currentModule.CurrentLoopIsTerminated
+	// Only exits inside of this loop count (a `never` expression before the loop must not mark it as terminated).
+	self.currentModule.CurrentLoopIsTerminated = false
 	self.currentModule.LoopDepth++
 	self.pushScope()
 
